@@ -78,14 +78,24 @@ func TestVerifReplay(t *testing.T) {
 	defer c.Close()
 	next := &countingNext{}
 	chain := []*sequence.ChainNode{{E: next}}
-	run := func(q *dns.Msg) {
+	// The DO flag the cache sees is the one of the query inside the context: NewContext replaces
+	// the client's OPT by a fresh one (EDNS0 is terminated, C15), so a DO set by the CLIENT never
+	// reaches the cache — or the upstream, whose answer therefore does not depend on it. The
+	// property is about the query the answer was stored for, so DO is set on that query, the way
+	// a plugin in front of the cache would.
+	run := func(q *dns.Msg, do bool) {
 		qCtx := query_context.NewContext(q)
+		if do {
+			if opt := qCtx.Q().IsEdns0(); opt != nil {
+				opt.SetDo()
+			}
+		}
 		if err := c.Exec(context.Background(), qCtx, sequence.NewChainWalker(chain, nil)); err != nil {
 			t.Fatal(err)
 		}
 	}
-	run(w.Q1.msg(1))
-	run(w.Q2.msg(2))
+	run(w.Q1.msg(1), w.Q1.DO)
+	run(w.Q2.msg(2), w.Q2.DO)
 	if w.ExpectBypass {
 		// non-queries must bypass the cache entirely
 		if next.n != 2 || k1 != "" {
